@@ -817,12 +817,8 @@ pub fn replace(input_string_value: &Value, pattern_string_value: &Value, replace
   if let Value::String(input_string) = input_string_value {
     if let Value::String(pattern_string) = pattern_string_value {
       if let Value::String(replacement_string) = replacement_string_value {
-        // Rust implementation is eager when parsing matching groups, so place numbers in square brackets
-        let repl = if let Ok(rg) = Regex::new("\\$([1-9][0-9]*)") {
-          rg.replace_all(replacement_string.as_str(), "$${${1}}").to_string()
-        } else {
-          replacement_string.clone()
-        };
+        // translate the replacement string from the XPath syntax into the syntax of the regex crate
+        let repl = xpath_replacement(replacement_string);
         // check and use flags
         if let Value::String(flags_string) = flags_string_value {
           let mut flags = "".to_string();
@@ -849,6 +845,8 @@ pub fn replace(input_string_value: &Value, pattern_string_value: &Value, replace
             }
             patt.push(ch);
           }
+          // with flag `q` the replacement string is used literally
+          let repl = if flag_q { replacement_string.replace('$', "$$") } else { repl.clone() };
           if flags.is_empty() {
             if let Ok(re) = Regex::new(&patt) {
               let result = re.replace_all(input_string.as_str(), repl.as_str()).trim().to_string();
@@ -870,6 +868,43 @@ pub fn replace(input_string_value: &Value, pattern_string_value: &Value, replace
     }
   }
   value_null!("replace")
+}
+
+/// Translates the replacement string of XPath `fn:replace` into the syntax of the `regex` crate:
+/// `$N` refers to the N-th group (the number ends after the last digit), `\$` is a dollar sign
+/// and `\\` is a backslash. A dollar sign or a backslash in any other position is taken literally.
+fn xpath_replacement(replacement: &str) -> String {
+  let mut repl = String::with_capacity(replacement.len());
+  let mut chars = replacement.chars().peekable();
+  while let Some(ch) = chars.next() {
+    match ch {
+      '\\' => match chars.peek() {
+        Some('\\') => {
+          chars.next();
+          repl.push('\\');
+        }
+        Some('$') => {
+          chars.next();
+          repl.push_str("$$");
+        }
+        _ => repl.push('\\'),
+      },
+      '$' => {
+        let mut digits = String::new();
+        while let Some(digit) = chars.peek().filter(|ch| ch.is_ascii_digit()) {
+          digits.push(*digit);
+          chars.next();
+        }
+        if digits.is_empty() {
+          repl.push_str("$$");
+        } else {
+          repl.push_str(&format!("${{{}}}", digits));
+        }
+      }
+      other => repl.push(other),
+    }
+  }
+  repl
 }
 
 ///
